@@ -1,4 +1,5 @@
 """C09 ZBDD set-family operations: wiring"""
+import substrate
 import edm
 import etaut
 import ector
@@ -86,4 +87,5 @@ def run(ctx):
                 "sat_count, pick_cube*) to the sequential type: the item of the same name with the parameters in order.")
     nd = eeval.check_mt_delegations(ctx, F)
     ctx.floor("E-WRAP.delegate", "forwarding methods of the MT function types", nd, 15)
+    substrate.run(ctx, F, dm=False)
     ctx.not_decided = "consistency after add_vars beyond the cache events and the rebuilt tautology chain"
